@@ -126,6 +126,15 @@ def gen_case(rng, tier):
 
 def corpus_cases():
     return [
+        # D4 (fixed f1a9548): base estimate / covariance labelled in another order than the estimate columns
+        {"kind": "stats", "what": "cdd", "cols": [["-1.366", "-0.307", "0.158", "0.897", "1.004"], ["-3.614", "-3.904", "-1.316", "-4.886", "-1.262"],
+                                                    ["39.432", "39.114", "39.442", "39.408", "38.506"]],
+         "base": ["1.375", "-2.237", "39.601"], "names": ["V2", "x_9", "alpha"], "base_perm": [0, 2, 1], "cov_perm": [2, 0, 1],
+         "use_jack": False, "drop": [0, 0, 1], "seed": 106},
+        # D5 (fixed 05239f5) / D6 (fixed 1c13772): eta columns / individual matrices not in the model's eta order
+        {"kind": "stats", "what": "shrink", "etas": [["-0.819", "-0.675", "0.430"], ["0.716", "0.824", "-0.350"]], "omegas": ["0.345", "0.025"],
+         "icov": [["0.026", "0.181", "-0.015"], ["0.061", "0.179", "0.012"]], "ie_swap": True, "pe_swap": False,
+         "icov_swap": [False, True], "seed": 107},
         # delta method, labels in model order (not lexical), unequal gradient / variances
         {"kind": "stats", "what": "delta", "names": ["POP_CL", "POP_VC", "COVAPGR"], "index_perm": None,
          "expr": ["*", ["s", "POP_VC"], ["+", ["c", "1"], ["*", ["c", "2.5"], ["s", "COVAPGR"]]]],
@@ -442,7 +451,9 @@ def run_cdd(case, drv):
         if posdef and cooks is not None:
             # the model gets the covariance matrix the code used, as exact rationals of its floats
             wm = [[_fr(v) for v in row] for row in cov_given.values.tolist()]
-            ansc = drv.ask(["cook2l", names, wcols, [names[j] for j in bperm], [dq(case["base"][j]) for j in bperm], wm])
+            cl = list(cov_given.index)
+            crows = [[cl[i], [[cl[j], wm[i][j]] for j in range(p)]] for i in range(p)]
+            ansc = drv.ask(["cook2l", names, wcols, [[names[j], dq(case["base"][j])] for j in bperm], cl, crows])
             for i, (cv, mv) in enumerate(zip(cooks, ansc)):
                 if mv == "singular" or not same(float(cv) ** 2, mv, 1e-3):
                     k.append(f"cook score^2 of replicate {i}: model {mv} code {float(cv) ** 2}")
@@ -510,16 +521,24 @@ def run_shrink(case, drv):
         break
     if drv is not None:
         order = [1, 0] if ie_swap else [0, 1]
-        ans = drv.ask(["shrinkage", [[dq(x) for x in case["etas"][j]] for j in order], [dq(x) for x in case["omegas"]]])
+        ansl = drv.ask(["shrinkagel", ["ETA_CL", "ETA_VC"], [dq(x) for x in case["omegas"]],
+                        [[ie_cols[t], [dq(x) for x in case["etas"][j]]] for t, j in enumerate(order)]])
+        if [r[0] for r in ansl] != list(sh.index):
+            k.append(f"eta shrinkage labels: model {[r[0] for r in ansl]} code {list(sh.index)}")
+        ans = [r[1] for r in ansl]
         for j, nm in enumerate(ie_cols):
             if not same(sh[nm], ans[j], 1.0):
                 k.append(f"eta shrinkage {nm}: model {float(Fraction(ans[j]))} code {sh[nm]}")
             if not same((1 - shsd[nm]) ** 2, str(1 - Fraction(ans[j])), 1.0):
                 k.append(f"eta shrinkage (sd) {nm}: model (1-s)^2 {float(1 - Fraction(ans[j]))} code {(1 - shsd[nm]) ** 2}")
-        ansi = drv.ask(["ishrinkage", [[dq(b), dq(a)] if sw else [dq(a), dq(b)] for (a, b, _), sw in zip(case["icov"], swaps)],
-                        [dq(x) for x in case["omegas"]]])
+        ansi = drv.ask(["ishrinkagel", ["ETA_CL", "ETA_VC"], [dq(x) for x in case["omegas"]],
+                        [[["ETA_VC", dq(b)], ["ETA_CL", dq(a)]] if sw else [["ETA_CL", dq(a)], ["ETA_VC", dq(b)]]
+                         for (a, b, _), sw in zip(case["icov"], swaps)]])
         for r, (i, row) in enumerate(zip(idx, ansi)):
-            for nm, mv in zip(list(mats[r].index), row):
+            for nm, (mnm, mv) in zip(list(mats[r].index), row):
+                if mnm != nm:
+                    k.append(f"individual shrinkage {i}: model label {mnm} code label {nm}")
+                    continue
                 if not same(ish.loc[i, nm], mv, 0.0):
                     k.append(f"individual shrinkage {i} {nm}: model {float(Fraction(mv))} code {ish.loc[i, nm]}")
     return {"k": k, "mon": mon, "tags": tags, "nontrivial": n >= 3}
